@@ -344,8 +344,9 @@ def execution_slice(path, line):
             if i > line:
                 break
             if ln.startswith('{"e":"op"'):
-                m = re.search(r'"lbl":(\{.*?\}),"ret"', ln)
-                labels.append(json.loads(m.group(1)))
+                m = re.search(r'"lbl":(\{[^{}]*\})', ln)
+                if m:
+                    labels.append(json.loads(m.group(1)))
             elif i > 1:
                 labels = []
     return labels
